@@ -72,11 +72,11 @@ theorem C11_kv_residual_monotone (f' f : Filter) (hr : Refines f' f) (e : Event)
 
 /-- **C11 (LMDB, unrelated data is never returned)** — in any coherent store, whatever else it
     contains, an event that does not match the filter is not in the answer -/
-theorem C11_kv_nonmatching_not_returned (s : Store) (hc : Coh s) (f : Filter) (dl : Option Nat) (p : Plan)
-    (hp : planFilter f dl = some p) (x : Event) (hst : getEvent s x.id = some x)
+theorem C11_kv_nonmatching_not_returned (s : Store) (hc : Coh s) (f : Filter) (dl : Option Nat) (ml : Nat) (p : Plan)
+    (hp : planFilter f dl ml = some p) (x : Event) (hst : getEvent s x.id = some x)
     (hno : matchesSpec false f x = false) : x.id ∉ executePlan s p := by
   intro hin
-  obtain ⟨e, hg, _, hm⟩ := C01_kv_sound s hc f dl p hp x.id hin
+  obtain ⟨e, hg, _, hm⟩ := C01_kv_sound s hc f dl ml p hp x.id hin
   rw [hst] at hg
   have : x = e := by simpa using hg
   subst this
